@@ -85,16 +85,24 @@ def check_after_write(ctx, rule="R14.1"):
             ctx.ok(rule, site, "every parameter-field store is followed by check_arg_bounds() on all %d normal-exit paths" % len(normal))
     # __setattr__: optional arguments are re-checked
     sa = prog.func(BASE, "CovModel.__setattr__")
-    body = [s for s in sa.body if not (isinstance(s, ast.Expr) and isinstance(s.value, ast.Constant))]
-    ok = (
-        len(body) == 2
-        and ast.unparse(body[0]) == "super().__setattr__(name, value)"
-        and isinstance(body[1], ast.If)
-        and "name in self._opt_arg" in ast.unparse(body[1].test)
-        and len(body[1].body) == 1
-        and ast.unparse(body[1].body[0]) == "self.check_arg_bounds()"
-        and not body[1].orelse
-    )
+    # on every path on which the name is an optional argument, the store is followed by a bounds check (plain or through the restoring helper)
+    from ..small import call_paths
+
+    watched = ("super().__setattr__", "self.check_arg_bounds", "self._check_or_restore")
+    pths = call_paths(sa, lambda c: ast.unparse(c.func) in watched)
+    ok = bool(pths)
+    n_opt = 0
+    for conds, evs, kind in pths:
+        names_ = [next(w for w in watched if e.startswith(w + "(")) for e in evs]
+        if kind == "raise":
+            continue
+        ok = ok and names_.count("super().__setattr__") == 1
+        is_opt = any("name in self._opt_arg" in c and not c.startswith("not ") for c in conds)
+        if is_opt:
+            n_opt += 1
+            k = names_.index("super().__setattr__") if "super().__setattr__" in names_ else -1
+            ok = ok and k >= 0 and any(x in ("self.check_arg_bounds", "self._check_or_restore") for x in names_[k + 1:])
+    ok = ok and n_opt >= 1
     ctx.check(ok, rule, BASE + "::CovModel.__setattr__", "storing an optional argument is followed by check_arg_bounds()", "setattr")
     # check_arg_bounds iterates all bounded arguments incl. optional ones
     cab = prog.func(TOOLS, "check_arg_bounds")
@@ -455,7 +463,88 @@ def constructor_var_last(ctx, rule="R14.10"):
     ctx.check(any(r._ord > last_scale._ord for r in raw_sets), rule, site, "a given var_raw is stored after the length scale is final as well", "var-raw-after-scale")
 
 
+def reject_restores(ctx, rule="R14.12"):
+    """"Values outside their bounds are always rejected": a setter that stores first and checks afterwards must put the old value back when
+    the check raises, otherwise the caller who catches the ValueError is left with a model holding the rejected value.  Every setter of
+    CovModel that stores a parameter field and then has the bounds checked does so through `_check_or_restore(<field>=<value read before
+    the store>, ...)` covering every field it stored; the helper restores all of them in its ValueError handler and re-raises."""
+    prog = ctx.prog
+    cm = prog.cls(BASE, "CovModel")
+    helper = cm.methods.get("_check_or_restore")
+    n = 0
+    fns = [("CovModel.%s@set" % k, v) for k, v in sorted(cm.setters.items())]
+    for qual, fn in fns:
+        stores = []
+        for st in ast.walk(fn):
+            if isinstance(st, ast.Assign):
+                for t in st.targets:
+                    for t2 in (t.elts if isinstance(t, ast.Tuple) else [t]):
+                        # only fields that have bounds: a rejected angle does not exist (the check after the angles store can only re-confirm the other fields)
+                        if isinstance(t2, ast.Attribute) and isinstance(t2.value, ast.Name) and t2.value.id == "self" and t2.attr in ("_var", "_nugget", "_len_scale", "_anis"):
+                            stores.append((t2.attr, st))
+        checks = [c for c in ast.walk(fn) if isinstance(c, ast.Call) and ast.unparse(c.func) in ("self.check_arg_bounds", "self._check_or_restore")]
+        if not stores or not checks:
+            continue
+        site = "%s::%s" % (BASE, qual)
+        first_store = min(st._ord for _, st in stores)
+        for c in checks:
+            if c._ord < first_store:
+                continue
+            n += 1
+            if ast.unparse(c.func) == "self.check_arg_bounds":
+                ctx.violation(rule, site, "stores %s and then calls check_arg_bounds(): when the value is rejected the ValueError leaves it stored (the model keeps a value outside its bounds)"
+                              % sorted({f for f, _ in stores}), "kept-on-reject:" + ",".join(sorted({f for f, _ in stores})))
+                continue
+            kws = {k.arg: k.value for k in c.keywords if k.arg}
+            missing = sorted({f for f, _ in stores} - set(kws))
+            okv = True
+            for f, v in kws.items():
+                # the restored value was read from the field before the first store
+                src = None
+                if isinstance(v, ast.Name):
+                    defs = [a for a in ast.walk(fn) if isinstance(a, ast.Assign) and len(a.targets) == 1 and isinstance(a.targets[0], ast.Name) and a.targets[0].id == v.id]
+                    if len(defs) == 1 and defs[0]._ord < first_store:
+                        src = defs[0].value
+                elif isinstance(v, ast.Subscript) and isinstance(v.value, ast.Name) and isinstance(v.slice, ast.Constant):
+                    defs = [a for a in ast.walk(fn) if isinstance(a, ast.Assign) and len(a.targets) == 1 and isinstance(a.targets[0], ast.Name) and a.targets[0].id == v.value.id]
+                    if len(defs) == 1 and defs[0]._ord < first_store and isinstance(defs[0].value, ast.Tuple) and v.slice.value < len(defs[0].value.elts):
+                        src = defs[0].value.elts[v.slice.value]
+                okv = okv and src is not None and ast.unparse(src) == "self.%s" % f
+            ctx.check(not missing and okv, rule, site, "the fields stored (%s) are handed to _check_or_restore with the values they had before the store%s"
+                      % (sorted({f for f, _ in stores}), (": missing %s" % missing) if missing else ""), "restore:" + ",".join(sorted({f for f, _ in stores})))
+    ctx.floor(rule, "setters that store a parameter field and have it checked", n, 5)
+    if helper is None:
+        ctx.violation(rule, BASE + "::CovModel", "no restoring helper: rejected values stay stored", "no-helper")
+        return
+    tr = [t for t in helper.body if isinstance(t, ast.Try)]
+    ok = False
+    if len(tr) == 1:
+        t = tr[0]
+        body_ok = any(isinstance(x, ast.Call) and ast.unparse(x.func) == "self.check_arg_bounds" for st in t.body for x in ast.walk(st))
+        h = [hh for hh in t.handlers if hh.type is not None and ast.unparse(hh.type) in ("ValueError", "Exception")]
+        if body_ok and len(h) == 1:
+            loops = [l for l in h[0].body if isinstance(l, ast.For) and ast.unparse(l.iter) == "%s.items()" % (helper.args.kwarg.arg if helper.args.kwarg else "?")]
+            restores = bool(loops) and any(isinstance(x, ast.Call) and ast.unparse(x.func) in ("super().__setattr__", "setattr", "object.__setattr__") for x in ast.walk(loops[0]))
+            reraises = bool(h[0].body) and isinstance(h[0].body[-1], ast.Raise) and h[0].body[-1].exc is None
+            ok = restores and reraises
+    ctx.check(ok, rule, BASE + "::CovModel._check_or_restore", "runs check_arg_bounds(); on ValueError puts every given old value back and re-raises", "helper")
+    # optional arguments (stored through __setattr__): an already present value is restored as well
+    sa = prog.func(BASE, "CovModel.__setattr__")
+    calls = [c for c in ast.walk(sa) if isinstance(c, ast.Call) and ast.unparse(c.func) == "self._check_or_restore"]
+    okk = False
+    if calls:
+        c = calls[0]
+        star = [k.value for k in c.keywords if k.arg is None]
+        if star and isinstance(star[0], ast.Dict) and len(star[0].keys) == 1 and ast.unparse(star[0].keys[0]) == "name" and isinstance(star[0].values[0], ast.Name):
+            oldn = star[0].values[0].id
+            store = [x for x in ast.walk(sa) if isinstance(x, ast.Expr) and ast.unparse(x) == "super().__setattr__(name, value)"]
+            defs = [a for a in ast.walk(sa) if isinstance(a, ast.Assign) and isinstance(a.targets[0], ast.Name) and a.targets[0].id == oldn]
+            okk = len(store) == 1 and len(defs) == 1 and defs[0]._ord < store[0]._ord and "getattr(self, name)" in ast.unparse(defs[0].value)
+    ctx.check(okk, rule, BASE + "::CovModel.__setattr__", "an optional argument that already had a value gets it back when the new one is rejected", "restore-opt-arg")
+
+
 def run(ctx):
+    reject_restores(ctx)
     no_subclass_caches(ctx)
     constructor_var_last(ctx)
     from .C12 import bookkeeping
